@@ -8,7 +8,14 @@ iteration (special cases on the axis / on the wire / zero diameter).  Kind `cel0
 elliptic integral `cel0(kc, p, c, s)` of special_cel.py (both prologue cases p > 0 / p <= 0, the
 `kc == 0` RuntimeError as `none`) against the port `Kern.cel0`, relative 1e-12.  Kind `celiter`: `cel_iter`
 (scalar pre-loop for fewer than 15 entries, then `cel_iterv` on the whole batch) on batches of 1..20 rows
-against `Kern.celIterDispatch`, relative 1e-12.""" 
+against `Kern.celIterDispatch`, relative 1e-12.  Kind `cylinder`: `BHJM_magnet_cylinder` (one row: `cel` takes its
+cel0 path) against `Kern.bhjmCylinder` (Model/Cylinder.lean: axial Derby kernel, diametral kernel with the Taylor
+branch r/r0 < 0.05 and the general branch, scipy's ellipk/ellipe modelled through cel0 — the modelling assumption this
+kind validates), observers stratified: far, inside, near and exactly on the axis, around r/r0 = 0.05, exactly on the hull
+(also with interior/exterior z and on the edge), exactly on the bases, within 1e-16..1e-3 (relative) of the surfaces on
+either side; polarization axial-only / transversal-only / mixed / zero; fields B/H/J/M; sizes 1e-3..1e3; tolerance
+1e-9 of max(|value|, polarization scale) (largest deviation seen in 1e5 rows: 3e-12).  Kind `cylmask`: the inside mask (J of a probe polarization != 0) and the
+on-edge mask (B of the probe polarization == 0 exactly) against `Kern.cylMasks`, exactly.""" 
 import struct
 
 import numpy as np
@@ -43,9 +50,67 @@ def stratified_point(rng, nps, size):
     return nps.uniform(-3, 3, 3) * size
 
 
-def run_stream(ctx, n):
+def cylinder_case(rng, nps, sc):
+    """diameter, height, observer and the name of the stratum the observer was drawn from"""
+    # a radius with few mantissa bits, so that (3k, 4k) has norm 5k = r0 exactly
+    m, e = np.frexp(nps.uniform(0.05, 0.2) * sc)
+    k = float(np.ldexp(np.floor(m * 2**20) / 2**20, e))
+    r0 = 5.0 * k
+    d = 2.0 * r0
+    h = float(nps.uniform(0.1, 3) * d)
+    z0 = h / 2
+    ph = nps.uniform(0, 2 * np.pi)
+    sgn = rng.choice([-1.0, 1.0])
+
+    def on_hull_xy():
+        c = rng.randrange(3)
+        if c == 0:
+            return rng.choice([(r0, 0.0), (-r0, 0.0), (0.0, r0), (0.0, -r0)])
+        a, b = rng.choice([(3.0, 4.0), (4.0, 3.0)])
+        return (rng.choice([-1, 1]) * a * k, rng.choice([-1, 1]) * b * k)
+
+    stratum = rng.choice(["far", "inside", "axis_near", "axis_exact", "r005", "hull_exact", "hull_edge_exact", "base_exact",
+                          "close_hull", "close_base", "close_edge", "generic"])
+    if stratum == "far":
+        x = nps.uniform(-1, 1, 3) * max(r0, z0) * 10 ** nps.uniform(0.3, 2)
+    elif stratum == "inside":
+        rr = r0 * nps.uniform(0.06, 0.95)
+        x = np.array([rr * np.cos(ph), rr * np.sin(ph), z0 * nps.uniform(-0.95, 0.95)])
+    elif stratum == "axis_near":
+        rr = r0 * 10 ** nps.uniform(-9, -1.31)
+        x = np.array([rr * np.cos(ph), rr * np.sin(ph), z0 * nps.uniform(-2.5, 2.5)])
+    elif stratum == "axis_exact":
+        x = np.array([0.0, 0.0, rng.choice([z0 * nps.uniform(-2.5, 2.5), sgn * z0, 0.0])])
+    elif stratum == "r005":
+        rr = r0 * 0.05 * (1 + rng.choice([-1, 1]) * 10 ** nps.uniform(-16, -2))
+        x = np.array([rr * np.cos(ph), rr * np.sin(ph), z0 * nps.uniform(-2.5, 2.5)])
+    elif stratum == "hull_exact":
+        x = np.array([*on_hull_xy(), z0 * nps.uniform(-2.5, 2.5)])
+    elif stratum == "hull_edge_exact":
+        x = np.array([*on_hull_xy(), sgn * z0])
+    elif stratum == "base_exact":
+        rr = r0 * rng.choice([nps.uniform(0.06, 0.99), nps.uniform(1.01, 3), 10 ** nps.uniform(-6, -1.5)])
+        x = np.array([rr * np.cos(ph), rr * np.sin(ph), sgn * z0])
+    elif stratum == "close_hull":
+        rr = r0 * (1 + rng.choice([-1, 1]) * 10 ** nps.uniform(-16, -3))
+        x = np.array([rr * np.cos(ph), rr * np.sin(ph), z0 * rng.choice([nps.uniform(-0.95, 0.95), nps.uniform(1.05, 2.5) * sgn])])
+    elif stratum == "close_base":
+        rr = r0 * rng.choice([nps.uniform(0.06, 0.95), nps.uniform(1.05, 3)])
+        x = np.array([rr * np.cos(ph), rr * np.sin(ph), sgn * z0 * (1 + rng.choice([-1, 1]) * 10 ** nps.uniform(-16, -3))])
+    elif stratum == "close_edge":
+        xy = on_hull_xy() if rng.random() < 0.5 else None
+        rr = r0 * (1 + rng.choice([-1, 1]) * 10 ** nps.uniform(-16, -3))
+        zz = sgn * z0 * (1 + rng.choice([-1, 0, 1]) * 10 ** nps.uniform(-16, -3))
+        x = np.array([*(xy if xy else (rr * np.cos(ph), rr * np.sin(ph))), zz])
+    else:
+        x = np.array([*(nps.uniform(-2, 2, 2) * r0), nps.uniform(-2, 2) * z0])
+    return d, h, np.asarray(x, dtype=float), stratum
+
+
+def run_stream(ctx, n, only=None):
     from magpylib import mu_0
     from magpylib._src.fields.field_BH_cuboid import BHJM_magnet_cuboid
+    from magpylib._src.fields.field_BH_cylinder import BHJM_magnet_cylinder
     from magpylib._src.fields.field_BH_dipole import BHJM_dipole
     from magpylib._src.fields.field_BH_polyline import current_polyline_Hfield
     from magpylib._src.fields.field_BH_sphere import BHJM_magnet_sphere
@@ -58,7 +123,8 @@ def run_stream(ctx, n):
     lines, expect, meta = [], [], []
     for i in range(n):
         nps = np.random.default_rng(rng.randrange(2**31))
-        kind = ["dipole", "sphere", "segment", "cuboidmask", "cuboid", "triangle", "tetra", "circle", "tetrainside", "cel0", "celiter"][i % 11]
+        kinds = only or ["dipole", "sphere", "segment", "cuboidmask", "cuboid", "triangle", "tetra", "circle", "tetrainside", "cel0", "celiter", "cylinder", "cylmask", "cylinder"]  # cylinder twice: twelve observer strata x six polarization kinds
+        kind = kinds[i % len(kinds)]
         sc = 10.0 ** nps.uniform(-3, 3)
         f = rng.choice("BHJM")
         if kind == "dipole":
@@ -185,6 +251,39 @@ def run_stream(ctx, n):
             expect.append(("vec", r, 1e-300))
             meta.append({"kind": kind, "rows": nrow, "circle_like": circ, "line": lines[-1][:80]})
             continue
+        elif kind in ("cylinder", "cylmask"):
+            d, h, x, stratum = cylinder_case(rng, nps, sc)
+            dim = np.array([[d, h]])
+            if kind == "cylmask":
+                probe = np.array([[0.3, 0.5, 0.7]])
+                with np.errstate(all="ignore"):
+                    inside = bool(np.any(BHJM_magnet_cylinder("J", x[None], dim, probe)[0] != 0))
+                    on_edge = bool(np.all(BHJM_magnet_cylinder("B", x[None], dim, probe)[0] == 0))
+                lines.append(f"kern cylmask {bits(d)} {bits(h)} {enc(x)}")
+                expect.append(("mask", f"{str(inside).lower()} {str(on_edge).lower()}", None))
+                meta.append({"kind": kind, "stratum": stratum, "dim": [d, h], "x": x.tolist()})
+                continue
+            pk = rng.choice(["ax", "tv", "mixed", "mixed", "zero", "tv1"])
+            pol = nps.uniform(-1, 1, 3)
+            if pk == "ax":
+                pol[:2] = 0.0
+            elif pk == "tv":
+                pol[2] = 0.0
+            elif pk == "tv1":
+                pol[2] = 0.0
+                pol[rng.randrange(2)] = 0.0
+            elif pk == "zero":
+                pol[:] = 0.0
+            lines.append(f"kern cylinder {f} {bits(d)} {bits(h)} {enc(pol)} {enc(x)}")
+            meta.append({"kind": kind, "field": f, "stratum": stratum, "pol": pk, "line": lines[-1][:80]})
+            try:
+                with np.errstate(all="ignore"):
+                    r = BHJM_magnet_cylinder(f, x[None], dim, pol[None])[0]
+            except RuntimeError:
+                expect.append(("mask", "none", None))
+                continue
+            expect.append(("vec", r, np.linalg.norm(pol) * (1 if f in "BJ" else 1 / mu_0) + 1e-300))
+            continue
         elif kind == "cuboid":
             dim, pol = nps.uniform(0.5, 2, 3) * sc, nps.uniform(-1, 1, 3) * rng.choice([1, 1, 1, 0])
             if rng.random() < 0.2:
@@ -211,10 +310,14 @@ def run_stream(ctx, n):
         expect.append(("vec", r, scale))
         meta.append({"kind": kind, "field": f, "line": lines[-1][:80]})
     out = run_driver(lines)
-    stats = {"rows": len(lines), "per_kind": {}, "disagreements": 0, "nonzero_rows": 0, "branch": {}}
+    stats = {"rows": len(lines), "per_kind": {}, "disagreements": 0, "nonzero_rows": 0, "branch": {}, "cylinder_strata": {},
+             "cylinder_max_reldiff": 0.0}
     samples = []
     for ln, o, (typ, exp, scale), m in zip(lines, out, expect, meta):
         stats["per_kind"][m["kind"]] = stats["per_kind"].get(m["kind"], 0) + 1
+        if "stratum" in m:
+            for key in (m["stratum"], "pol:" + m["pol"] if "pol" in m else "mask-row"):
+                stats["cylinder_strata"][key] = stats["cylinder_strata"].get(key, 0) + 1
         if typ == "mask":
             stats["branch"][exp] = stats["branch"].get(exp, 0) + 1
             ok = o == exp
@@ -227,7 +330,12 @@ def run_stream(ctx, n):
                 ok = False
             else:
                 both_nan = np.isnan(got) & np.isnan(exp)
-                tol = 1e-6 if m["kind"] in ("triangle", "tetra") else 1e-12 if m["kind"] in ("cel0", "celiter") else 1e-10  # triangle sheets: cancellation near edge extensions amplifies the different operation order
+                tol = 1e-6 if m["kind"] in ("triangle", "tetra") else 1e-12 if m["kind"] in ("cel0", "celiter") else 1e-9 if m["kind"] == "cylinder" else 1e-10  # triangle sheets: cancellation near edge extensions amplifies the different operation order; cylinder: scipy ellipk/ellipe vs their cel0 forms
+                if m["kind"] == "cylinder" and np.shape(got) == np.shape(exp) and not np.any(both_nan):
+                    with np.errstate(all="ignore"):
+                        rd = np.abs(got - exp) / np.maximum(np.maximum(np.abs(got), np.abs(exp)), scale)
+                    if np.all(np.isfinite(rd)):
+                        stats["cylinder_max_reldiff"] = max(stats["cylinder_max_reldiff"], float(np.max(rd)))
                 ok = bool(np.all(both_nan | (np.abs(got - exp) <= tol * np.maximum(np.maximum(np.abs(got), np.abs(exp)), scale))))
                 if np.any(exp != 0):
                     stats["nonzero_rows"] += 1
